@@ -285,6 +285,13 @@ def run(prog: Program, col: Collector, tier: str, refs: Optional[Refs] = None, c
                       f"`return {srcn}` is not guarded by a test that the values of `{subsn}` are pairwise distinct: scattering along a diagonal (two keys onto one "
                       "variable) must leave the unit of the op off the diagonal", f.loc(ret))
     col.cur.analysed["scatter_returns_source"] = m
+    # prerequisites of the adjoint shared with other properties: the optimizer's rewrite that the tape replays (C05 R05.6), renaming of
+    # tensor inputs in substituted leaves (C04 R04.9), the per-slice shift of logsumexp (C15 R15.15)
+    algebra.r_scope_extrusion(prog, col, refs, cat, "R11.10")
+    col.rule("R11.11", "an input is renamed to the name of a substituted value only after that name is tested against the term's own inputs", floor=2)
+    from . import c04, c15
+    c04._rename_clash(prog, col, refs, cat, c04._subs_collections(prog, refs, cat))
+    c15._logsumexp_axis(prog, col, refs, cat, "R11.12")
     return col
 
 
